@@ -7,6 +7,8 @@ file against the copy. Prints one line per mutant: killed-by-suite / caught-by <
 equivalent mutant or a gap).
 
   mutation_sweep.py [--max N] [--seed S] [--files f1,f2,...] [--delete]     (--delete: statement deletion instead of token mutation)
+  mutation_sweep.py --tables [--max N] [--seed S]      one literal of the evaluator's lookup tables (dp_table.rs: AS_FLUSH,
+                                                        AS_RAINBOW, REF_*) changed by +1 or -1, sampled evenly over the three tables
 
 Scratch copy and build output live under $SWEEP_DIR (default /tmp/verif-sweep) and are removed at the end.
 """
@@ -33,6 +35,8 @@ FILES = {
 }
 
 DELETE_ONLY = False
+TABLES = False
+TABLE_FILE = "src/evaluator/dp_table.rs"
 
 OPERATORS = [
     (r"(?<![<>=!-])<=(?!=)", "<"), (r"(?<![<>=!&-])<(?![<=])", "<="),
@@ -97,7 +101,45 @@ def code_region(path, text):
     return [n for n, k in enumerate(keep) if k]
 
 
+def table_candidates(seed):
+    """One numeric literal of a lookup table changed by one; a third of the sample from each of REF_*, AS_FLUSH, AS_RAINBOW."""
+    rng = random.Random(seed)
+    lines = open(os.path.join(SRC, TABLE_FILE)).read().split("\n")
+    groups = {"REF": [], "AS_FLUSH": [], "AS_RAINBOW": []}
+    current = None
+    for n, line in enumerate(lines):
+        m = re.match(r"^(?:pub )?const (\w+): \[u16; \d+\] = \[(.*)$", line)
+        if m:
+            current = "REF" if m.group(1).startswith("REF_") else m.group(1)
+            body_from = m.start(2)
+        elif current and re.match(r"^[\s\d,]*(\];)?\s*$", line):
+            body_from = 0
+        else:
+            current = None
+            continue
+        if current not in groups:
+            continue
+        for lit in re.finditer(r"\b\d+\b", line[body_from:]):
+            groups[current].append((n, body_from + lit.start(), body_from + lit.end()))
+        if line.rstrip().endswith("];"):
+            current = None
+    out = []
+    for g, cands in groups.items():
+        rng.shuffle(cands)
+        for (n, a, b) in cands[:400]:
+            old = lines[n]
+            v = int(old[a:b])
+            nv = v + 1 if (v == 0 or rng.random() < 0.5) else v - 1
+            new = old[:a] + str(nv) + old[b:]
+            out.append((TABLE_FILE, n, old, new, f"{g} literal {v} -> {nv} (line {n + 1}, column {a + 1})"))
+    print("table literals: " + ", ".join(f"{g} {len(c)}" for g, c in groups.items()), flush=True)
+    rng.shuffle(out)
+    return out
+
+
 def candidates(seed, files):
+    if TABLES:
+        return table_candidates(seed)
     rng = random.Random(seed)
     out = []
     for f in files:
@@ -138,6 +180,10 @@ def main():
             seed = int(args.pop(0))
         elif a == "--files":
             files = args.pop(0).split(",")
+        elif a == "--tables":
+            global TABLES
+            TABLES = True
+            FILES[TABLE_FILE] = ["C01", "C07"]
         elif a == "--delete":
             global DELETE_ONLY
             DELETE_ONLY = True
